@@ -4,6 +4,7 @@ a program whose procedures call only in tail position runs at constant frame dep
 iterations; the frame limit turns runaway non-tail recursion into an error value.
 -/
 import SteelVerif.C09.Model
+import SteelVerif.C09.PropsCore
 namespace SteelVerif.C09
 open SteelVerif.C01
 
